@@ -45,7 +45,7 @@ type result struct {
 func TestCheck(t *testing.T) {
 	r := h.Start(t, "C14")
 	defer r.Finish()
-	r.Meta("rule", "(A) first use: per process 300 named struct types (75 groups of 4 mutually nested types) that nothing has touched; per group 2/8/32 goroutines are released by a barrier to Marshal (simple and reference mode), Encode, or Unmarshal (stream written by the independent writer) values of the group's types simultaneously, so that nested types are first-used through different outer types at once; every result is compared with the independent reader/writer and with the single-goroutine result computed afterwards. (B) warm stress: 16 goroutines round-trip the shared C01 corpus concurrently. (C) pool hygiene: all sequences of length <= 4 (exhaustive) over 12 kinds of use of pooled encoders/decoders and RPC codecs (simple ok, reference with back-references, failing input, decoder options, reader mode, codec with options ...), each compared with the same use through a freshly allocated coder. (D) aliasing: decoded values are printed, the input buffer is overwritten and 200 unrelated pooled operations are run, then printed again. The race detector observes all of it (race pass). distinct_nontrivial = distinct (group, goroutine role) first-use windows whose call intervals overlapped another goroutine's + distinct pool sequences + aliasing cases")
+	r.Meta("rule", "(A) first use: per process 300 named struct types (75 groups of 4 mutually nested types) that nothing has touched; per group 2/8/32 goroutines are released by a barrier to Marshal (simple and reference mode), Encode, or Unmarshal (stream written by the independent writer) values of the group's types simultaneously, so that nested types are first-used through different outer types at once; every result is compared with the independent reader/writer and with the single-goroutine result computed afterwards. (B) warm stress: 16 goroutines round-trip the shared C01 corpus concurrently. (C) pool hygiene: all sequences of length <= 4 (exhaustive) over 12 kinds of use of pooled encoders/decoders and RPC codecs (simple ok, reference with back-references, failing input, decoder options, reader mode, codec with options ...), each compared with the same use through a freshly allocated coder. (D) aliasing: decoded values are printed, the input buffer is overwritten and 200 unrelated pooled operations are run, then printed again. The race detector observes all of it (race pass). distinct_nontrivial = distinct (group, goroutine role) first-use windows whose call intervals overlapped another goroutine's + distinct pool sequences + aliasing cases Added: pool users that set no decoder option at all (Unmarshal, UnmarshalFromReader, Formatter{} in reference mode) and one that sets every option to its non-default value, with dynamic result types in the rendering.")
 	r.Meta("assumptions", []string{
 		"the first-use window can only be sampled, not forced: the evidence reports for how many fresh types the first calls of at least two goroutines overlapped in time (monotonic timestamps around each first call)",
 		"byte comparisons avoid multi-entry maps (iteration order); those are compared by decoding",
